@@ -95,7 +95,7 @@ CHECKS = {
               "not/and/or/implies/iff/requires/excludes or a single literal, possibly none) reading what the writer produced gives "
               "the normal form [fide_norm m] — same tree, constraints renamed 1..k and rewritten into logically equivalent "
               "implies/not/and forms (proved equivalent under every assignment) — which is in the fragment and a fixed point, so "
-              "further cycles change nothing. The XML text layer is an external-library hypothesis validated on every case. Source tie (DESIGN §10), partial: the pure helper functions of featureide_writer.py (_tag_element, _get_attributes, _get_ctc_info, _get_constraints_info) are re-translated on every run (Gen/Src_fide.v) and proved equal to the model's tag, attribute list and intermediate constraint tree (C07_source_*); the functions assembling ElementTree elements mutate shared XML objects and stay tied by suite W-fide."),
+              "further cycles change nothing. The XML text layer is an external-library hypothesis validated on every case. Source tie (DESIGN §10), partial: the pure helper functions of featureide_writer.py (_tag_element, _get_attributes, _get_ctc_info, _get_constraints_info) are re-translated on every run (Gen/Src_fide.v) and proved equal to the model's tag, attribute list and intermediate constraint tree (C07_source_*); the functions assembling ElementTree elements mutate shared XML objects and stay tied by suite W-fide; of featureide_reader.py the constraint half (_parse_rule with its field assignments on freshly created nodes, _read_constraints) is re-translated (Gen/Src_fider.v) and proved EQUAL to the model's fide_parse_rule / fide_read_constraints, errors included (C07_source_reader_rule, C07_source_reader_constraints); _read_features changes a feature after appending it to a list (aliasing) and stays tied by suites R-fide / R-fide-3p."),
         note="Coq kernel; extraction/driver; harness; ElementTree/minidom round trip; names with tab/CR/LF excluded (attribute-value normalisation of the stdlib serializer); no axioms",
         technique="Coq proof (round-trip by induction over the tree and the constraint syntax) + differential correspondence + helper functions re-translated into Gallina on every run (tools/py2coq.py) and proved equal to the model",
         design="4 C07"),
